@@ -275,15 +275,20 @@ static void mk_arena_abstract(carquet_arena_t *a) {
 }
 #define FRESH_OF(p, n) (__CPROVER_DYNAMIC_OBJECT(p) && __CPROVER_POINTER_OFFSET(p) == 0 && __CPROVER_OBJECT_SIZE(p) == (n))
 
+/* calloc, case 1: every (count, size) whose TRUE product is <= 2^40 (written without a division:
+ * both factors < 2^32, or one factor <= 2^40 and the other < 2^23 -- a product <= 2^40 with one factor
+ * >= 2^32 forces the other <= 2^8), so count*size cannot wrap whatever the guard
+ * `total / count != size` decides (a spurious NULL is allowed by the property, a short region is
+ * not): NULL, or a zeroed region of exactly count*size bytes.  No fact about the 64-bit divider
+ * is needed for the proof. */
 void h_calloc(void) {
   carquet_arena_t a;
   mk_arena_abstract(&a);
   size_t count = nondet_size_t(), size = nondet_size_t();
-  /* bounded: SAT cannot close total / count == size for 32-bit factors (timeout), SMT back ends crash on
-   * is_fresh-instrumented programs; 16-bit factors (products < 2^32) keep the divider tractable */
-  __CPROVER_assume(count <= 0xFFFFu && size <= 0xFFFFu);
+  __CPROVER_assume((count <= 0xFFFFFFFFu && size <= 0xFFFFFFFFu) || (count <= CQV_MAXBUF && size < ((size_t)1 << 23)) ||
+                   (size <= CQV_MAXBUF && count < ((size_t)1 << 23)));
   size_t total = count * size;
-  __CPROVER_assume(total <= H_MAXSZ);
+  __CPROVER_assume(total <= H_MAXSZ); /* size domain of the allocator contract */
   uint8_t *p = carquet_arena_calloc(&a, count, size);
   __CPROVER_assert(p == NULL || FRESH_OF(p, total), "calloc: NULL or a region of exactly count*size bytes");
   __CPROVER_assert(!(p && g_mc_k < total) || p[g_mc_k] == 0, "calloc: region is zeroed (ghost index)");
@@ -293,13 +298,21 @@ void h_calloc(void) {
   CQV_CANARY("calloc harness end");
 }
 
-/* overflow of count*size is refused before anything is requested from the arena */
+/* calloc, case 2: a wrapping product is refused before anything is requested from the arena.
+ * CQV_CALLOC_POW2: bounded variant, count restricted to powers of two (the divider then is a shift). */
 void h_calloc_overflow(void) {
   carquet_arena_t a;
   mk_arena_abstract(&a);
   carquet_arena_t old = a;
   size_t count = nondet_size_t(), size = nondet_size_t();
+#ifdef CQV_CALLOC_POW2
+  unsigned sh = nondet_unsigned();
+  __CPROVER_assume(sh >= 1 && sh <= 63);
+  count = (size_t)1 << sh;
+  __CPROVER_assume((size >> (64 - sh)) != 0); /* size >= 2^(64-sh): the product wraps */
+#else
   __CPROVER_assume(count != 0 && size > (size_t)-1 / count);
+#endif
   void *p = carquet_arena_calloc(&a, count, size);
   __CPROVER_assert(p == NULL, "calloc: overflowing count*size returns NULL");
   __CPROVER_assert(a.current == old.current && a.total_allocated == old.total_allocated && a.total_capacity == old.total_capacity, "calloc overflow: arena untouched");
